@@ -283,11 +283,15 @@ structure Report where
   aggregates : List (String × List Agg)     -- exported (`WithExportAggregates`)
   deriving Repr
 
-/-- `if !slices.Contains(finalReport.Notices, notice) { append }` -/
-def dedupNotices (ns : List Notice) : List Notice :=
-  ns.foldl (fun acc n => if n ∈ acc then acc else acc ++ [n]) []
+/-- keep the first occurrence of every element, in order -/
+def dedup {α} [DecidableEq α] (l : List α) : List α :=
+  l.foldl (fun acc n => if n ∈ acc then acc else acc ++ [n]) []
 
-def distinctFiles (vs : List Violation) : List Str := (vs.map (·.file)).eraseDups
+/-- `if !slices.Contains(finalReport.Notices, notice) { append }` -/
+def dedupNotices (ns : List Notice) : List Notice := dedup ns
+
+/-- keys of `ViolationsFileCount()` -/
+def distinctFiles (vs : List Violation) : List Str := dedup (vs.map (·.file))
 
 structure LintOpts where
   useCollectQuery : Bool := false
